@@ -1,6 +1,7 @@
 import PeptVerif.Model.Score
 import PeptVerif.Spec.Score
-/-! Helper lemmas for C17 (two-pointer sweep). Core only so far. -/
+import Mathlib.Order.Defs.LinearOrder
+/-! Helper lemmas for C17 (two-pointer sweep, windows on sorted lists, arg-best, intensity fraction). -/
 namespace Score
 variable {α : Type}
 
@@ -32,9 +33,9 @@ theorem takeWhile_drop_len (p : α → Bool) (l : List α) (i : Nat) (h : i ≤ 
     | zero => simp
     | succ i =>
       by_cases hp : p a
-      · simp [List.takeWhile_cons, hp] at h ⊢
+      · simp [hp] at h ⊢
         rw [ih i (by omega)]
-      · simp [List.takeWhile_cons, hp] at h
+      · simp [hp] at h
 
 theorem takeWhile_len_mono (p q : α → Bool) (l : List α) (hpq : ∀ y, p y = true → q y = true) :
     (l.takeWhile p).length ≤ (l.takeWhile q).length := by
@@ -42,13 +43,13 @@ theorem takeWhile_len_mono (p q : α → Bool) (l : List α) (hpq : ∀ y, p y =
   | nil => simp
   | cons a l ih =>
     by_cases hp : p a
-    · simp [List.takeWhile_cons, hp, hpq a hp]; exact ih
-    · simp [List.takeWhile_cons, hp]
+    · simp [hp, hpq a hp]; exact ih
+    · simp [hp]
 
 theorem takeWhile_len_le (p : α → Bool) (l : List α) : (l.takeWhile p).length ≤ l.length := by
   induction l with
   | nil => simp
-  | cons a l ih => by_cases hp : p a <;> simp [List.takeWhile_cons, hp] ; omega
+  | cons a l ih => by_cases hp : p a <;> simp [hp] ; omega
 
 /-- the window computed by prefix lengths: skip the maximal `below` prefix, then take the maximal
 `within` prefix of the rest -/
@@ -57,4 +58,230 @@ def windowTW (below within : α → α → Bool) (ys : List α) (x : α) : Optio
   let m := ((ys.drop s).takeWhile (fun y => within y x)).length
   if m = 0 then none else some (s, s + m)
 
+/-! ### windows on sorted lists -/
+
+theorem windowFrom_nil_of_forall (inWin : α → α → Bool) (x : α) (j : Nat) (l : List α)
+    (h : ∀ y ∈ l, inWin y x = false) : windowFrom inWin x j l = [] := by
+  induction l generalizing j with
+  | nil => rfl
+  | cons y l ih =>
+    simp only [windowFrom, h y (by simp)]
+    exact ih (j+1) (fun z hz => h z (by simp [hz]))
+
+section
+variable [LinearOrder α] (lo hi : α → α)
+
+/-- on a sorted list all of whose elements are ≥ lo x, the brute-force window is the maximal `≤ hi x` prefix -/
+theorem windowFrom_upper (x : α) (j : Nat) (l : List α) (hs : l.Pairwise (· ≤ ·)) (hlo : ∀ y ∈ l, lo x ≤ y) :
+    windowFrom (fun y x => decide (lo x ≤ y) && decide (y ≤ hi x)) x j l
+      = List.range' j (l.takeWhile (fun y => decide (y ≤ hi x))).length := by
+  induction l generalizing j with
+  | nil => simp [windowFrom]
+  | cons y l ih =>
+    rw [List.pairwise_cons] at hs
+    have hy : lo x ≤ y := hlo y (by simp)
+    by_cases hw : y ≤ hi x
+    · simp only [windowFrom, hy, hw, decide_true, Bool.and_self, if_true, List.takeWhile_cons, List.length_cons]
+      rw [ih (j+1) hs.2 (fun z hz => hlo z (by simp [hz]))]
+      rw [List.range'_succ]
+    · have : windowFrom (fun y x => decide (lo x ≤ y) && decide (y ≤ hi x)) x (j+1) l = [] := by
+        apply windowFrom_nil_of_forall
+        intro z hz
+        have : y ≤ z := hs.1 z hz
+        have : ¬ z ≤ hi x := fun h => hw (le_trans this h)
+        simp [this]
+      simp [windowFrom, hw, this]
+
+theorem windowTW_eq_window_aux (x : α) (j : Nat) (ys : List α) (hs : ys.Pairwise (· ≤ ·)) :
+    windowFrom (fun y x => decide (lo x ≤ y) && decide (y ≤ hi x)) x j ys
+      = List.range' (j + (ys.takeWhile (fun y => decide (y < lo x))).length)
+          ((ys.drop (ys.takeWhile (fun y => decide (y < lo x))).length).takeWhile (fun y => decide (y ≤ hi x))).length := by
+  induction ys generalizing j with
+  | nil => simp [windowFrom]
+  | cons y l ih =>
+    by_cases hb : y < lo x
+    · have hnl : ¬ lo x ≤ y := not_le.mpr hb
+      rw [List.pairwise_cons] at hs
+      simp only [windowFrom, hnl, decide_false, Bool.false_and, List.takeWhile_cons, hb, decide_true,
+        if_true, List.length_cons, List.drop_succ_cons]
+      rw [ih (j+1) hs.2]
+      simp only [Bool.false_eq_true, if_false]
+      congr 1
+      omega
+    · have hl : lo x ≤ y := not_lt.mp hb
+      have h0 : (List.takeWhile (fun y => decide (y < lo x)) (y :: l)) = [] := by
+        simp [hb]
+      rw [h0]
+      simp only [List.length_nil, List.drop_zero, Nat.add_zero]
+      apply windowFrom_upper
+      · exact hs
+      · intro z hz
+        rw [List.pairwise_cons] at hs
+        rcases List.mem_cons.mp hz with rfl | hz
+        · exact hl
+        · exact le_trans hl (hs.1 z hz)
+end
+
+theorem idxList_windowTW (below within : α → α → Bool) (ys : List α) (x : α) :
+    idxList (windowTW below within ys x)
+      = List.range' (ys.takeWhile (fun y => below y x)).length
+          ((ys.drop (ys.takeWhile (fun y => below y x)).length).takeWhile (fun y => within y x)).length := by
+  unfold windowTW
+  simp only
+  split
+  · rename_i h; rw [h]; rfl
+  · simp [idxList]
+
+theorem windowTW_none_iff (below within : α → α → Bool) (ys : List α) (x : α) :
+    windowTW below within ys x = none ↔ idxList (windowTW below within ys x) = [] := by
+  unfold windowTW
+  simp only
+  split
+  · simp [idxList]
+  · rename_i h
+    simp only [idxList, reduceCtorEq, false_iff]
+    intro hh
+    have := congrArg List.length hh
+    simp at this
+    exact h (by rw [this]; rfl)
+
+/-! ### the `Num Rat` instance unfolds to the field operations of ℚ -/
+@[simp] theorem rat_sub (a b : Rat) : Num.sub a b = a - b := rfl
+@[simp] theorem rat_add (a b : Rat) : Num.add a b = a + b := rfl
+@[simp] theorem rat_mul (a b : Rat) : Num.mul a b = a * b := rfl
+@[simp] theorem rat_div (a b : Rat) : Num.div a b = a / b := rfl
+@[simp] theorem rat_lt (a b : Rat) : Num.lt a b = decide (a < b) := rfl
+@[simp] theorem rat_le (a b : Rat) : Num.le a b = decide (a ≤ b) := rfl
+@[simp] theorem rat_eq (a b : Rat) : Num.eq a b = decide (a = b) := rfl
+@[simp] theorem rat_zero : (Num.zero : Rat) = 0 := rfl
+@[simp] theorem rat_million : (Num.million : Rat) = 1000000 := rfl
+
+
+/-! ### arg-best, mapM, slices -/
+section
+variable {β : Type}
+
+/-- `argBestGo` for a strict weak order `lt'` ("strictly better"): the returned index is either the incoming
+best (and nothing in `vs` beats it) or a position in `vs` whose element is beaten by nothing. -/
+theorem argBestGo_spec (lt' : β → β → Prop) [DecidableRel lt']
+    (irr : ∀ a, ¬ lt' a a) (tr : ∀ a b c, lt' a b → lt' b c → lt' a c)
+    (ntr : ∀ a b c, ¬ lt' a b → ¬ lt' b c → ¬ lt' a c) :
+    ∀ (vs : List β) (bi : Nat) (b : β) (i : Nat),
+      (argBestGo (fun v b => decide (lt' v b)) bi b i vs = bi ∧ ∀ u ∈ vs, ¬ lt' u b) ∨
+      (∃ h : argBestGo (fun v b => decide (lt' v b)) bi b i vs - i < vs.length,
+          i ≤ argBestGo (fun v b => decide (lt' v b)) bi b i vs ∧
+          ¬ lt' b (vs[argBestGo (fun v b => decide (lt' v b)) bi b i vs - i]) ∧
+          ∀ u ∈ vs, ¬ lt' u (vs[argBestGo (fun v b => decide (lt' v b)) bi b i vs - i])) := by
+  intro vs
+  induction vs with
+  | nil => intro bi b i; left; simp [argBestGo]
+  | cons v vs ih =>
+    intro bi b i
+    by_cases hvb : lt' v b
+    · have e : argBestGo (fun v b => decide (lt' v b)) bi b i (v :: vs)
+          = argBestGo (fun v b => decide (lt' v b)) i v (i+1) vs := by simp [argBestGo, hvb]
+      rw [e]
+      right
+      rcases ih i v (i+1) with ⟨h1, h2⟩ | ⟨h, h1, h2, h3⟩
+      · rw [h1]
+        refine ⟨by simp, Nat.le_refl _, ?_, ?_⟩
+        · simp only [Nat.sub_self, List.getElem_cons_zero]
+          intro hbv; exact irr _ (tr _ _ _ hvb hbv)
+        · intro u hu
+          simp only [Nat.sub_self, List.getElem_cons_zero]
+          rcases List.mem_cons.mp hu with rfl | hu
+          · exact irr _
+          · exact h2 u hu
+      · have hlen : argBestGo (fun v b => decide (lt' v b)) i v (i+1) vs - i < (v :: vs).length := by
+          simp only [List.length_cons]; omega
+        have hidx : (v :: vs)[argBestGo (fun v b => decide (lt' v b)) i v (i+1) vs - i]'hlen
+            = vs[argBestGo (fun v b => decide (lt' v b)) i v (i+1) vs - (i+1)] := by
+          have : argBestGo (fun v b => decide (lt' v b)) i v (i+1) vs - i
+              = (argBestGo (fun v b => decide (lt' v b)) i v (i+1) vs - (i+1)) + 1 := by omega
+          simp only [this, List.getElem_cons_succ]
+        refine ⟨hlen, by omega, ?_, ?_⟩
+        · rw [hidx]
+          intro hbw
+          exact h2 (tr _ _ _ hvb hbw)
+        · intro u hu
+          rw [hidx]
+          rcases List.mem_cons.mp hu with rfl | hu
+          · exact h2
+          · exact h3 u hu
+    · have e : argBestGo (fun v b => decide (lt' v b)) bi b i (v :: vs)
+          = argBestGo (fun v b => decide (lt' v b)) bi b (i+1) vs := by simp [argBestGo, hvb]
+      rw [e]
+      rcases ih bi b (i+1) with ⟨h1, h2⟩ | ⟨h, h1, h2, h3⟩
+      · left
+        refine ⟨h1, ?_⟩
+        intro u hu
+        rcases List.mem_cons.mp hu with rfl | hu
+        · exact hvb
+        · exact h2 u hu
+      · right
+        have hlen : argBestGo (fun v b => decide (lt' v b)) bi b (i+1) vs - i < (v :: vs).length := by
+          simp only [List.length_cons]; omega
+        have hidx : (v :: vs)[argBestGo (fun v b => decide (lt' v b)) bi b (i+1) vs - i]'hlen
+            = vs[argBestGo (fun v b => decide (lt' v b)) bi b (i+1) vs - (i+1)] := by
+          have : argBestGo (fun v b => decide (lt' v b)) bi b (i+1) vs - i
+              = (argBestGo (fun v b => decide (lt' v b)) bi b (i+1) vs - (i+1)) + 1 := by omega
+          simp only [this, List.getElem_cons_succ]
+        refine ⟨hlen, by omega, ?_, ?_⟩
+        · rw [hidx]; exact h2
+        · intro u hu
+          rw [hidx]
+          rcases List.mem_cons.mp hu with rfl | hu
+          · exact ntr _ _ _ hvb h2
+          · exact h3 u hu
+
+/-- `argBest` on a non-empty list returns a valid index whose element nothing beats -/
+theorem argBest_spec (lt' : β → β → Prop) [DecidableRel lt']
+    (irr : ∀ a, ¬ lt' a a) (tr : ∀ a b c, lt' a b → lt' b c → lt' a c)
+    (ntr : ∀ a b c, ¬ lt' a b → ¬ lt' b c → ¬ lt' a c) (l : List β) (hl : l ≠ []) :
+    ∃ r, argBest (fun v b => decide (lt' v b)) l = some r ∧ ∃ h : r < l.length, ∀ u ∈ l, ¬ lt' u l[r] := by
+  cases l with
+  | nil => exact absurd rfl hl
+  | cons v vs =>
+    refine ⟨_, rfl, ?_⟩
+    rcases argBestGo_spec lt' irr tr ntr vs 0 v 1 with ⟨h1, h2⟩ | ⟨h, h1, h2, h3⟩
+    · rw [h1]
+      refine ⟨by simp, ?_⟩
+      intro u hu
+      simp only [List.getElem_cons_zero]
+      rcases List.mem_cons.mp hu with rfl | hu
+      · exact irr _
+      · exact h2 u hu
+    · have hlen : argBestGo (fun v b => decide (lt' v b)) 0 v 1 vs < (v :: vs).length := by
+        simp only [List.length_cons]; omega
+      have hidx : (v :: vs)[argBestGo (fun v b => decide (lt' v b)) 0 v 1 vs]'hlen
+          = vs[argBestGo (fun v b => decide (lt' v b)) 0 v 1 vs - 1] := by
+        have : argBestGo (fun v b => decide (lt' v b)) 0 v 1 vs
+            = (argBestGo (fun v b => decide (lt' v b)) 0 v 1 vs - 1) + 1 := by omega
+        rw [List.getElem_cons]
+        split
+        · omega
+        · rfl
+      refine ⟨hlen, ?_⟩
+      intro u hu
+      rw [hidx]
+      rcases List.mem_cons.mp hu with rfl | hu
+      · exact h2
+      · exact h3 u hu
+
+theorem mapM_ok {γ δ ε : Type} (f : γ → Except ε δ) (g : γ → δ) (l : List γ) (h : ∀ a ∈ l, f a = .ok (g a)) :
+    l.mapM f = .ok (l.map g) := by
+  induction l with
+  | nil => rfl
+  | cons a l ih =>
+    rw [List.mapM_cons, h a (by simp), ih (fun b hb => h b (by simp [hb]))]
+    rfl
+
+theorem slice_length {γ : Type} (l : List γ) (s e : Nat) (he : e ≤ l.length) : (slice l s e).length = e - s := by
+  simp [slice]; omega
+
+theorem slice_getElem {γ : Type} (l : List γ) (s e i : Nat) (h : i < (slice l s e).length) :
+    (slice l s e)[i] = l[s + i]'(by simp [slice] at h; omega) := by
+  simp [slice]
+
+end
 end Score
